@@ -307,7 +307,12 @@ fn gen_spec(rng: &mut Rng) -> BreakerSpec {
 
 fn gen_case(rng: &mut Rng, base: u64, long: bool) -> Case {
     let nb = if rng.chance(1, 3) { 2 } else { 1 };
-    let breakers: Vec<BreakerSpec> = (0..nb).map(|_| gen_spec(rng)).collect();
+    let mut breakers: Vec<BreakerSpec> = (0..nb).map(|_| gen_spec(rng)).collect();
+    // two rules that are equal under the library's rule equality are one rule (a rule set is a set,
+    // see C10): generate two *different* breakers
+    while breakers.len() == 2 && cb_rule("x", &breakers[0]) == cb_rule("x", &breakers[1]) {
+        breakers[1] = gen_spec(rng);
+    }
     let flow_threshold = if rng.chance(1, 4) { Some(*rng.pick(&[1.0, 2.0, 4.0])) } else { None };
     let len = if long { 20 + rng.below(60) } else { 8 + rng.below(40) } as usize;
     let s0 = breakers[0].clone();
